@@ -329,11 +329,18 @@ func runBridge(s *script, r *res.Result) (string, string, int) {
 			r.Count("bridge_reordernext_calls", 1)
 		case "dropq":
 			// resolved against the live model queue: offset+n must lie inside the queue
-			if o.Off+o.N > len(md.queue) {
-				continue
+			if o.Off >= len(md.queue) {
+				continue // the offset must lie inside the queue
+			}
+			// a count that reaches beyond the end of the queue drops what is there from the offset on; the messages in
+			// front of the offset were not asked for and stay
+			nn := o.N
+			if o.Off+nn > len(md.queue) {
+				nn = len(md.queue) - o.Off
+				r.Count("bridge_drop_calls_beyond_the_end", 1)
 			}
 			br.Drop(d, o.Off, o.N)
-			md.queue = append(append([][]byte{}, md.queue[:o.Off]...), md.queue[o.Off+o.N:]...)
+			md.queue = append(append([][]byte{}, md.queue[:o.Off]...), md.queue[o.Off+nn:]...)
 			r.Count("bridge_drop_calls", 1)
 		case "reorder":
 			err := br.Reorder(d)
@@ -524,7 +531,7 @@ func genBridge(rng *rand.Rand) *script {
 		case k < 95:
 			s.Ops = append(s.Ops, op{K: "process"})
 		default:
-			s.Ops = append(s.Ops, op{K: "dropq", D: d, Off: rng.Intn(3), N: 1 + rng.Intn(2)})
+			s.Ops = append(s.Ops, op{K: "dropq", D: d, Off: rng.Intn(3), N: []int{1, 2, 1, 2, 5, 100}[rng.Intn(6)]})
 		}
 	}
 	if rearm {
